@@ -934,6 +934,59 @@ pub fn boundary(ctx: &Ctx, rep: &mut Report) {
         }
         rep.require("exact_fit_quiet_tail_triples", 8);
     }
+    // ONE TALL coefficient in s2 (everything else zero, s1 = 0): magnitudes around the square roots
+    // of both acceptance bounds (5833.9 and 8382.4) at several positions, both signs: accepted by
+    // Algorithm 16 iff k^2 <= the variant's own bound
+    {
+        let mut rng = rng_for(ctx.seed, "c02-spike");
+        for (n, l) in [(512usize, 625usize), (1024, 1239)] {
+            for k in [5000i64, 5833, 5834, 5835, 6000, 7000, 8000, 8382, 8383, 8384, 9000, 12000] {
+                for (pi, pos) in [0usize, 1, n / 2, n - 1].iter().enumerate() {
+                    let mut s2 = vec![0i64; n];
+                    s2[*pos] = if pi % 2 == 0 { k } else { -k };
+                    if let Some(c) = crate::gen::craft_from(n, vec![0i64; n], s2, &mut rng) {
+                        if let Some(body) = spec::compress(&c.s2, l) {
+                            let pkb = spec::pk_encode(&c.h);
+                            if n == 512 {
+                                check_triple::<F512>(&format!("single-tall-coefficient-{}", k), &c.msg, &build_sig::<F512>(&c.salt, &body), &pkb, rep);
+                            } else {
+                                check_triple::<F1024>(&format!("single-tall-coefficient-{}", k), &c.msg, &build_sig::<F1024>(&c.salt, &body), &pkb, rep);
+                            }
+                            rep.count("single_tall_coefficient_triples", 1);
+                        }
+                    }
+                }
+            }
+        }
+        rep.require("single_tall_coefficient_triples", 60);
+    }
+    // MESSAGE-LENGTH sweep: a valid triple (s2 = 1, tiny s1, h = c - s1 with c from the reference
+    // hash of the WHOLE message) for every message length 0..=8448
+    {
+        let mut rng = rng_for(ctx.seed, "c02-msglen");
+        let base: Vec<u8> = rand_bytes(&mut rng, 8448);
+        let salt = rand_bytes(&mut rng, 40);
+        for len in 0..=8448usize {
+            let n = if len % 3 == 0 { 1024 } else { 512 };
+            let msg = &base[..len];
+            let mut rm = salt.clone();
+            rm.extend_from_slice(msg);
+            let c = spec::hash_to_point(&rm, n);
+            let mut s1 = vec![0i64; n];
+            s1[len % n] = 2;
+            let h: Vec<i64> = (0..n).map(|t| spec::modq(c[t] - s1[t])).collect();
+            let mut s2 = vec![0i64; n];
+            s2[0] = 1;
+            let pkb = spec::pk_encode(&h);
+            if n == 512 {
+                check_triple::<F512>("message-length-sweep", msg, &build_sig::<F512>(&salt, &spec::compress(&s2, 625).unwrap()), &pkb, rep);
+            } else {
+                check_triple::<F1024>("message-length-sweep", msg, &build_sig::<F1024>(&salt, &spec::compress(&s2, 1239).unwrap()), &pkb, rep);
+            }
+            rep.count("message_lengths_swept", 1);
+        }
+        rep.require("message_lengths_swept", 8000);
+    }
     interleaved(ctx, rep);
     related_variants(ctx, rep);
     // verify while a thread is being torn down (see C13): crafted triples at the bound
